@@ -488,7 +488,37 @@ def r11_only_write_locks_across_transport_writes(ctx):
            "the Alert / EOF that follows — the session is never closed and nobody is released" % bad[1])
 
 
+def r12_close_is_never_cancelled(ctx):
+    """close() sets the closed flag first and does the rest (drain the streams, shut the transport down) afterwards, and it is
+    one-shot on that flag: a caller that drops its future part-way (a timeout around it, a select! branch) leaves a session that
+    says it is closed, whose transport stays open for good and that no later close() can finish"""
+    from .C11 import _future_calls
+    n = 0
+    for key, body in ctx.P.scan():
+        o = None
+        for c in body.calls():
+            nm = c.norm or ""
+            if nm.endswith(("time::timeout", "time::timeout_at")) and len(c.args) > 1:
+                o = o or ctx.origins(body)
+                terms = [o.of_operand(c.args[1])]
+                what = "time::timeout"
+            elif nm.endswith("future::poll_fn") and c.args:
+                o = o or ctx.origins(body)
+                t = o.of_operand(c.args[0])
+                terms = [t] + [o.init_of(s_[2]) for s_ in subterms(t) if isinstance(s_, tuple) and s_ and s_[0] == "var" and len(s_) > 2]
+                what = "select!"
+            else:
+                continue
+            n += 1
+            hit = [s_ for tt in terms for s_ in _future_calls(tt) if is_call_term(s_, "Session::close")]
+            ctx.ob("R09.12", "%s|%s#%d" % (key.split("::{closure")[0], what, n), not hit, c.site, "the raced future is not Session::close()" if not hit else
+                   "Session::close() is raced against %s: close() flags the session closed before it waits for the writer, so a cancelled close() leaves a session that reports closed, is dropped by its owner, "
+                   "and whose TLS connection is never shut down (close() is one-shot on the flag; nothing can finish the job)" % what)
+    ctx.floor("R09.12", "timeout / select! sites examined", n, 5)
+
+
 def run(ctx):
+    r12_close_is_never_cancelled(ctx)
     r11_only_write_locks_across_transport_writes(ctx)
     from . import C20 as _C20p
     _C20p.r17_panicking_index_methods(ctx, _C20p.input_reachable(ctx))   # the Alert / error text of the peer cannot panic the task that is about to release everybody
